@@ -287,7 +287,50 @@ Definition s_union (ts : list (list param)) : res (list param) :=
 Definition s_setv (t : list param) (k v : Z) : res (list param) :=
   do p <- py_get t k; do p' <- s_set_value p v; py_set t k p'.
 
-(* map_param: the new alias matrix (argument checks, duplicate check, np.where, hstack) *)
+(* map_param, independently of the model's numpy plumbing: the models are visited in order; a model the
+   parameter is mapped to must have an alias (IndexError) that it does not use yet (KeyError); the new
+   column holds the alias for the mapped models and None for the others; a sequence of aliases must have
+   one entry per model, a single entry is broadcast (numpy), anything else is a ValueError *)
+Fixpoint s_dup_scan (rows : list (list (option Z))) (names applied : list Z) (j todo : nat) : res unit :=
+  match todo with
+  | O => Ok tt
+  | S todo' =>
+      if mem (Z.of_nat j) applied then
+        match nth_error rows j, nth_error names j with
+        | Some row, Some a => if mem a (somes row) then Err KeyError else s_dup_scan rows names applied (S j) todo'
+        | _, _ => Err IndexError
+        end
+      else s_dup_scan rows names applied (S j) todo'
+  end.
+
+Definition s_column (n : nat) (names applied : list Z) : res (list (option Z)) :=
+  let cell (j : nat) (a : Z) := if mem (Z.of_nat j) applied then Some a else None in
+  if Nat.eqb (length names) n
+  then Ok (map (fun ja : nat * Z => cell (fst ja) (snd ja)) (combine (seq 0 n) names))
+  else match names with
+       | [a] => Ok (map (fun j => cell j a) (seq 0 n))
+       | _ => Err ValueError
+       end.
+
+Definition s_map_rows (n : nat) (rows : list (list (option Z))) (pname : Z) (models : option (list Z)) (al : aliases)
+  : res (list (list (option Z))) :=
+  let names := match al with
+               | ANone => repeat pname n
+               | AStr a => repeat a n
+               | ASeq ls => ls
+               end in
+  let applied := match models with None => map Z.of_nat (seq 0 n) | Some ms => ms end in
+  match applied with
+  | [] => Err ValueError
+  | _ :: _ =>
+      do _ <- s_dup_scan rows names applied 0 n;
+      do col <- s_column n names applied;
+      if Nat.eqb (length rows) (length col)
+      then Ok (map (fun rc : list (option Z) * option Z => fst rc ++ [snd rc]) (combine rows col))
+      else Err ValueError
+  end.
+
+(* the same in the shape of the model's code (used to factor M_Params.map_param; proved equal to s_map_rows) *)
 Definition map_rows (n : nat) (rows : list (list (option Z))) (pname : Z) (models : option (list Z)) (al : aliases)
   : res (list (list (option Z))) :=
   let names := match al with
@@ -323,7 +366,7 @@ Definition s_step (a : aworld) (o : op) : aworld * option err :=
       match s_param_new d with
       | Err e => (a, Some e)
       | Ok p =>
-          match map_rows (length (a_src a)) (a_names a) (p_name p) models al with
+          match s_map_rows (length (a_src a)) (a_names a) (p_name p) models al with
           | Err e => (a, Some e)
           | Ok rows => match s_add (a_g a) p false with
                        | Err e => (a, Some e)
